@@ -17,6 +17,7 @@ type GenCfg struct {
 	RejectHeavy       bool // favour rejection based nodes over small domains (C01/C04)
 	Custom            bool // allow Custom nodes
 	Make              bool // allow Make nodes
+	MakeFlat          bool // allow Make nodes of pointer-free types only (their Go-syntax text is the same in every run)
 	BigRegexp         bool // allow regexps with negated classes / dots (large rune tables)
 	CustomStmts       bool // Custom bodies may skip, signal, register cleanups, probe contexts
 	SmallInts         bool // leaf integers from small ranges (values that shrink visibly)
@@ -499,8 +500,11 @@ func GenGenSpec(dt *drv.T, cfg GenCfg) *GenSpec {
 	if cfg.Custom {
 		menu = append(menu, "custom", "custom")
 	}
-	if cfg.Make {
+	if cfg.Make || cfg.MakeFlat {
 		menu = append(menu, "make")
+		if cfg.RejectHeavy {
+			menu = append(menu, "makemap")
+		}
 	}
 	switch pick(dt, "node", menu...) {
 	case "slice", "distinct":
@@ -565,7 +569,13 @@ func GenGenSpec(dt *drv.T, cfg GenCfg) *GenSpec {
 	case "custom":
 		return genCustomSpec(dt, sub)
 	case "make":
+		if cfg.MakeFlat && !cfg.Make {
+			return &GenSpec{K: "make", Type: pick(dt, "mktype", makeFlatTypeNames...)}
+		}
 		return &GenSpec{K: "make", Type: pick(dt, "mktype", makeTypeNames...)}
+	case "makemap":
+		// maps over a two-valued key type: most draws contain rejected duplicate keys
+		return &GenSpec{K: "make", Type: pick(dt, "mkmaptype", "mapbool", "mapboolstr", "structmapbool")}
 	}
 	return genScalarSpec(dt, cfg)
 }
